@@ -20,14 +20,14 @@ impl<'a> ParamParser<'a> {
     pub(crate) fn new(input: &'a [u8], stmt: &'a mut StatementData) -> io::Result<Self> {
         // `Iterator::next` has no way to report a malformed parameter block,
         // so decode it once up front and refuse the command if that fails.
-        let mut bound_types = stmt.bound_types.clone();
+        // This also records newly bound types even if the shim never looks at the parameters.
         let mut dry_run = Params {
             params: stmt.params,
             input,
             nullmap: None,
             col: 0,
             long_data: &stmt.long_data,
-            bound_types: &mut bound_types,
+            bound_types: &mut stmt.bound_types,
         };
         while dry_run.try_next()?.is_some() {}
 
